@@ -72,11 +72,12 @@ theorem C09_call_given_vptrs (s s' : PState) (mults rest : List UInt64)
     own static cell, which the latest update set to the class's v-table — with direct and with indirect
     v-table pointers -/
 theorem deref_final_exact (s' : PState) (c : Compiled) (hc : s'.compiled = some c) (inst : Installed) (id ci : Nat)
-    (hid : id = s'.staticId) (hci : classIdx c.graph.heads (s'.cfg.proj id) = some ci) :
+    (hid : id = s'.staticId) (h0 : s'.staticId ≠ 0) (hci : classIdx c.graph.heads (s'.cfg.proj id) = some ci) :
     ∃ vp, s'.mkFinal id = .ok vp ∧ s'.derefVPtr inst vp = .ok (inst.vptr.get ci) := by
   unfold PState.mkFinal
   have hne : (id != s'.staticId) = false := by simp [hid]
-  simp only [hne, Bool.and_false, Bool.false_eq_true, if_false]
+  have h0' : (s'.staticId == 0) = false := by simpa using h0
+  simp only [h0', hne, Bool.and_false, Bool.false_eq_true, if_false]
   by_cases hind : s'.cfg.indirect = true
   · simp only [hind, if_true]
     refine ⟨_, rfl, ?_⟩
